@@ -392,15 +392,34 @@ class AWorld:
         return ("ok", t.result())
 
     def close(self):
+        """Tear the world down.  Callers that are still blocked (deadlock verdicts) are cancelled and given a few
+        iterations to unwind inside the loop; what is left is dropped with unraisable-exception reports silenced
+        (they would come from coroutines finalised outside any async context, after the verdict was recorded)."""
+        import sys
+        old_hook = sys.unraisablehook
+        sys.unraisablehook = lambda *a: None
         try:
-            for c in self.callers:
-                t = c["task"]
-                if t is not None and not t.done():
-                    t.cancel()
+            pending = [c["task"] for c in self.callers if c["task"] is not None and not c["task"].done()]
+            for t in pending:
+                t.cancel()
+            for _ in range(60):
+                if not self.loop.live_ready():
+                    break
+                try:
+                    self.loop.run_iteration()
+                except BaseException:
+                    break
             self.loop.uninstall()
+            # drop every reference to unfinished coroutines now, while reports are silenced
+            for c in self.callers:
+                c["task"] = None
+                c["fn"] = None
+            self.monitors.clear()
+            self.roots.clear()
         finally:
             gc.enable()
             gc.collect()
+            sys.unraisablehook = old_hook
 
 
 A_RULES = dict(SEQ_RULES)
